@@ -4,7 +4,19 @@ import Driver.Util
 namespace Driver.Refcount
 open Mpt Mpt.Refcount
 
+/-- part `g`: the library's unshareable metatypes over one harness buffer.  M side: the buffer's counter; S side:
+    the references the harness holds, the total is derived from the living buffer metatypes that hold one -/
+structure GSt where
+  made : Bool := false
+  bcount : Nat := 0
+  balive : Bool := true
+  bext : Nat := 0
+  bdead : Bool := false
+  metas : List (Bool × Bool × Bool) := []   -- (alive, buffer metatype, holds a reference to the buffer)
+  deriving Inhabited
+
 structure DSt where
+  g : GSt := {}
   m : St := {}
   s : Refs.SSt := {}
   cnt : Nat := 0
@@ -90,6 +102,12 @@ def finish (d : DSt) (m' : St) (ok : Bool) (iret : String) (alts : List Refs.Alt
   ({ d with m := m', s := pick d.named alts ok c d.s },
    line (if ok then "ok" else "refused") c (iret ++ fmtShared m') (fmtAlts d.named alts))
 
+/-- one operation of a history: M through `St.exec`, S through `Refs.alts` — the functions `C15.refines` is about -/
+def runOp (d : DSt) (m : St) (op : Op) (iret : String) : DSt × String :=
+  if !m.valid op then (d, "bad-op") else
+  let (m', ok) := m.exec op
+  finish d m' ok iret (Refs.alts d.s op)
+
 def step (d : DSt) (w : List String) : DSt × String :=
   let m := d.m.clearEv
   match w with
@@ -119,10 +137,10 @@ def step (d : DSt) (w : List String) : DSt × String :=
       if m.objs.length ≥ 3 ∨ m.objs.length ≠ d.named then (d, "bad-op") else
       let i := m.objs.length
       let mk (k : OKind) (count : Nat) (elems : List Nat) : DSt × String :=
-        let m' : St := { m with objs := m.objs ++ [{ kind := k, count := count, alive := true, ext := count, elems := elems,
-                                                     cap := capOf (elems.length * 8) }],
-                                ev := m.ev ++ [{}] }
-        let s' : Refs.SSt := { d.s with objs := d.s.objs ++ [{ kind := k, ext := count, elems := elems }] }
+        let op : Op := .create k count elems
+        if !m.valid op then (d, "bad-op") else
+        let m' : St := (m.exec op).1
+        let s' : Refs.SSt := match Refs.alts d.s op with | a :: _ => a.st | [] => d.s
         let r := s!"ok o={i}"
         ({ d with m := m', s := s', named := i + 1 },
          line r (fmtM (i + 1) m') ("0" ++ fmtShared m') (fmtAlts (i + 1) [{ ok := true, st := s' }] r))
@@ -136,15 +154,13 @@ def step (d : DSt) (w : List String) : DSt × String :=
     match idx hs 3, idx os m.objs.length with
     | some h, some o =>
       if !handleEmpty m h then (d, "bad-op") else
-      let (m', r) := m.take h o
-      finish d m' (match r with | .ok _ => true | _ => false) (fmtRet r) (Refs.take d.s h o)
+      runOp d m (.take h o) (fmtRet (m.take h o).2)
     | _, _ => (d, "bad-op")
   | ["r", "copy", hs, gs] =>
     match idx hs 3, idx gs 3 with
     | some h, some g =>
       if h = g ∨ !handleEmpty m h then (d, "bad-op") else
-      let (m', r) := m.copy h g
-      finish d m' (match r with | .ok _ => true | _ => false) (fmtRet r) (Refs.copy d.s h g)
+      runOp d m (.copy h g) (fmtRet (m.copy h g).2)
     | _, _ => (d, "bad-op")
   | ["r", "detach", hs, ls] =>
     match idx hs 3, ls.toNat? with
@@ -153,8 +169,7 @@ def step (d : DSt) (w : List String) : DSt × String :=
       | none => (d, "bad-op")
       | some o =>
         if len > 64 ∨ (m.obj o).kind != .rbuf then (d, "bad-op") else
-        let (m', ok) := m.detach h len
-        finish d m' ok "0" (Refs.detach d.s h)
+        runOp d m (.detach h len) "0"
     | _, _ => (d, "bad-op")
   | ["r", "reserve", hs, ls] =>
     match idx hs 3, ls.toNat? with
@@ -163,11 +178,8 @@ def step (d : DSt) (w : List String) : DSt × String :=
       match m.hnd.getD h none with
       | some o =>
         if (m.obj o).kind != .rbuf then (d, "bad-op") else
-        let (m', ok) := m.reserve h len
-        finish d m' ok "0" (Refs.reserve d.s h len)
-      | none =>
-        let (m', ok) := m.reserve h len
-        finish d m' ok "0" (Refs.reserve d.s h len)
+        runOp d m (.reserve h len) "0"
+      | none => runOp d m (.reserve h len) "0"
     | _, _ => (d, "bad-op")
   | ["r", "lo", "new"] =>
     if m.hnd.length ≠ 3 then (d, "bad-op") else
@@ -179,9 +191,7 @@ def step (d : DSt) (w : List String) : DSt × String :=
     | some o =>
       if m.hnd.length ≠ 4 ∨ (m.obj o).kind != .hmeta then (d, "bad-op") else
       -- the held target is replaced: retain the new one, release the old one
-      let (m', r) := m.assignMeta 3 (some o)
-      finish d m' (match r with | .ok _ => true | _ => false) (match r with | .ok _ => "0" | .err e => e.name)
-        (Refs.assign d.s 3 (some o) false)
+      runOp d m (.assignMeta 3 (some o)) (match (m.assignMeta 3 (some o)).2 with | .ok _ => "0" | .err e => e.name)
     | none => (d, "bad-op")
   | ["r", "lo", "drop"] =>
     if m.hnd.length ≠ 4 then (d, "bad-op") else
@@ -190,7 +200,7 @@ def step (d : DSt) (w : List String) : DSt × String :=
     finish d { m1 with hnd := m1.hnd.take 3 } true "0" alts
   | ["r", "drop", hs] =>
     match idx hs 3 with
-    | some h => finish d (m.drop h) true "0" (Refs.drop d.s h)
+    | some h => runOp d m (.drop h) "0"
     | none => (d, "bad-op")
   | ["r", op, hs, src] =>
     if op == "assign" ∨ op == "assigno" then
@@ -223,25 +233,16 @@ def step (d : DSt) (w : List String) : DSt × String :=
             | none, none => some true
           match useMeta with
           | none => (d, "bad-op")
-          | some true =>
-            let (m', r) := m.assignMeta h so
-            finish d m' (match r with | .ok _ => true | _ => false) (fmtRet r) (Refs.assign d.s h so false)
-          | some false =>
-            let (m', r) := m.assignArr h so
-            let mismatch := so.isSome ∧ old.isSome ∧ traitsOf m so ≠ traitsOf m old
-            finish d m' (match r with | .ok _ => true | _ => false) (fmtRet r) (Refs.assign d.s h so mismatch)
+          | some true => runOp d m (.assignMeta h so) (fmtRet (m.assignMeta h so).2)
+          | some false => runOp d m (.assignArr h so) (fmtRet (m.assignArr h so).2)
     else if op == "ext" then
       match idx hs m.objs.length with
       | none => (d, "bad-op")
       | some o =>
         let k := (m.obj o).kind
         if k != .hmeta ∧ k != .hbuf then (d, "bad-op")
-        else if src == "addref" then
-          let (m', ok) := m.extAdd o
-          finish d m' ok "0" (Refs.extAdd d.s o)
-        else if src == "unref" then
-          if (m.obj o).ext = 0 then (d, "bad-op")
-          else finish d (m.extUnref o) true "0" (Refs.extUnref d.s o)
+        else if src == "addref" then runOp d m (.extAdd o) "0"
+        else if src == "unref" then runOp d m (.extUnref o) "0"
         else (d, "bad-op")
     else (d, "bad-op")
   | ["r", "end"] =>
@@ -708,11 +709,144 @@ def stepN (d : DSt) (w : List String) : DSt × String :=
     finishN d m1 "ok" [("ok", { ok := true, st := s2.1, evs := s2.2 })] [] d.rdy
   | _ => (d, "bad-op")
 
+/-! ### part g: `mpt_meta_geninfo`, `mpt_meta_buffer` -/
+
+def GSt.holders (g : GSt) : Nat := (g.metas.filter fun m => m.1 && m.2.2).length
+def GSt.refs (g : GSt) : Nat := g.bext + g.holders
+def GSt.canTake (g : GSt) : Bool := !g.bdead && 0 < g.refs && g.refs < MAXV
+
+def fmtMetas (ms : List (Bool × Bool × Bool)) : String :=
+  " ".intercalate ((List.range ms.length).map fun i =>
+    match ms.getD i (false, false, false) with
+    | (a, k, _) => s!"m{i}={if a then "A" else "D"}{if k then "mbuf" else "info"}")
+
+def fmtG (made alive : Bool) (count add unref : Nat) (destroyed dead : Bool) (ms : List (Bool × Bool × Bool)) : String :=
+  let b := if made then
+      [s!"b={if alive then "A" else "D"}:{fmtCount count}:+{add}-{unref}{if destroyed then "D" else ""}{if dead then "!" else ""}"]
+    else []
+  " ".intercalate (b ++ (if ms.isEmpty then [] else [fmtMetas ms]) ++ ["h=-"])
+
+/-- the buffer's addref in M: (state, returned value, the object was dead) -/
+def GSt.addrefM (g : GSt) : GSt × Nat × Bool :=
+  if !g.balive then (g, 0, true) else
+  let r := raise g.bcount
+  ({ g with bcount := r.1 }, r.2, false)
+
+/-- the buffer's unref in M: (state, destroyed, the object was dead) -/
+def GSt.unrefM (g : GSt) : GSt × Bool × Bool :=
+  if !g.balive then (g, false, true) else
+  let r := lower g.bcount
+  if r.2 ≠ 0 then ({ g with bcount := r.1 }, false, false) else ({ g with bcount := r.1, balive := false }, true, false)
+
+/-- S: the total went down; destroyed iff nothing is left -/
+def GSt.releasedS (g : GSt) : GSt × Bool :=
+  if g.refs = 0 ∧ !g.bdead then ({ g with bdead := true }, true) else (g, false)
+
+def stepG (d : DSt) (w : List String) : DSt × String :=
+  let g := d.g
+  let lineG (r : String) (c : String) (alts : List (String × String)) : String :=
+    s!"R {r} | C {c} | I ret=0 | S " ++ " || ".intercalate (alts.map fun a => s!"{a.1} ; {a.2}")
+  let plain (g' : GSt) (r : String) : DSt × String :=
+    let c := fmtG g'.made g'.balive g'.bcount 0 0 false false g'.metas
+    let cs := fmtG g'.made (!g'.bdead) g'.refs 0 0 false false g'.metas
+    ({ d with g := g' }, lineG r c [(r, cs)])
+  -- a new buffer metatype tries to take a reference (`kind`: (alive, mbuf, holds) of the new object given "holds")
+  let acquire (g0 : GSt) (r : String) : DSt × String :=
+    let (g1, ret, dead) := g0.addrefM
+    let holds : Bool := ret ≠ 0
+    let gM : GSt := { g1 with metas := g1.metas ++ [(true, true, holds)] }
+    let c := fmtG gM.made gM.balive gM.bcount 1 0 false dead gM.metas
+    -- S: a reference is taken when one can be taken; otherwise the new object holds none (the attempt may or may
+    -- not have reached the buffer's addref)
+    let alts : List (String × String) :=
+      if g0.canTake then
+        let gS : GSt := { g0 with metas := g0.metas ++ [(true, true, true)] }
+        [(r, fmtG gS.made (!gS.bdead) gS.refs 1 0 false false gS.metas)]
+      else
+        let gS : GSt := { g0 with metas := g0.metas ++ [(true, true, false)] }
+        [(r, fmtG gS.made (!gS.bdead) gS.refs 1 0 false g0.bdead gS.metas),
+         (r, fmtG gS.made (!gS.bdead) gS.refs 0 0 false false gS.metas)]
+    ({ d with g := gM }, lineG r c alts)
+  -- an owner gives up buffer metatype `i`
+  let giveUp (g0 : GSt) (i : Nat) : GSt × String × String :=
+    match g0.metas.getD i (false, false, false) with
+    | (_, k, holds) =>
+      let ms := g0.metas.set i (false, k, false)
+      if holds then
+        let (g1, destroyed, dead) := g0.unrefM
+        let gM : GSt := { g1 with metas := ms }
+        let (gS, dS) := ({ g0 with metas := ms } : GSt).releasedS
+        let gM' : GSt := { gM with bdead := gS.bdead }
+        (gM', fmtG gM.made gM.balive gM.bcount 0 1 destroyed dead ms, fmtG gS.made (!gS.bdead) gS.refs 0 1 dS false ms)
+      else
+        let gM : GSt := { g0 with metas := ms }
+        (gM, fmtG gM.made gM.balive gM.bcount 0 0 false false ms, fmtG gM.made (!gM.bdead) gM.refs 0 0 false false ms)
+  let living (i : Nat) : Bool := decide (i < g.metas.length) && (g.metas.getD i (false, false, false)).1
+  match w with
+  | ["g", "begin"] => ({ d with g := {} }, "R ok | C - | I ret=0")
+  | ["g", "buf", v] =>
+    match parseCount v with
+    | some n => if g.made then (d, "bad-op") else plain { g with made := true, bcount := n, balive := true, bext := n, bdead := false } "ok"
+    | none => (d, "bad-op")
+  | ["g", "new", "info"] =>
+    if g.metas.length ≥ 6 then (d, "bad-op") else plain { g with metas := g.metas ++ [(true, false, false)] } s!"ok m={g.metas.length}"
+  | ["g", "new", "mbuf"] =>
+    if g.metas.length ≥ 6 ∨ !g.made then (d, "bad-op") else acquire g s!"ok m={g.metas.length}"
+  | ["g", "addref", ms] =>
+    -- an unshareable object: the counter cannot be raised, failure is reported
+    match ms.toNat? with
+    | some i => if living i then plain g "ret=0" else (d, "bad-op")
+    | none => (d, "bad-op")
+  | ["g", "take", ms] =>
+    match ms.toNat? with
+    | some i => if living i then plain g "refused" else (d, "bad-op")
+    | none => (d, "bad-op")
+  | ["g", "wrap", ms] =>
+    match ms.toNat? with
+    | some i => if living i then plain g "refused" else (d, "bad-op")
+    | none => (d, "bad-op")
+  | ["g", "clone", ms] =>
+    match ms.toNat? with
+    | some i =>
+      if !living i ∨ g.metas.length ≥ 6 then (d, "bad-op") else
+      match g.metas.getD i (false, false, false) with
+      | (_, false, _) => plain { g with metas := g.metas ++ [(true, false, false)] } s!"ok m={g.metas.length}"
+      | (_, true, true) => acquire g s!"ok m={g.metas.length}"
+      | (_, true, false) => plain { g with metas := g.metas ++ [(true, true, false)] } s!"ok m={g.metas.length}"
+    | none => (d, "bad-op")
+  | ["g", "unref", ms] =>
+    match ms.toNat? with
+    | some i =>
+      if !living i then (d, "bad-op") else
+      let (g', c, cs) := giveUp g i
+      ({ d with g := g' }, lineG "ok" c [("ok", cs)])
+    | none => (d, "bad-op")
+  | ["g", "drop"] => plain g "ok"
+  | ["g", "end"] =>
+    -- every living object is given up, in creation order; the events add up
+    let r := (List.range g.metas.length).foldl (fun (acc : GSt × Nat × Bool × Bool × Bool) i =>
+        let (g0, un, des, desS, dead) := acc
+        if !(g0.metas.getD i (false, false, false)).1 then acc else
+        match g0.metas.getD i (false, false, false) with
+        | (_, k, holds) =>
+          let ms := g0.metas.set i (false, k, false)
+          if holds then
+            let (g1, destroyed, dd) := g0.unrefM
+            let (gS, dS) := ({ g0 with metas := ms } : GSt).releasedS
+            ({ g1 with metas := ms, bdead := gS.bdead }, un + 1, des || destroyed, desS || dS, dead || dd)
+          else ({ g0 with metas := ms }, un, des, desS, dead)) (g, 0, false, false, false)
+    let g' := r.1
+    let c := fmtG g'.made g'.balive g'.bcount 0 r.2.1 r.2.2.1 r.2.2.2.2 []
+    let cs := fmtG g'.made (!g'.bdead) g'.refs 0 r.2.1 r.2.2.2.1 false []
+    ({ d with g := { g' with metas := [] } }, lineG "ok" c [("ok", cs)])
+  | _ => (d, "bad-op")
+
 /-- dispatch on the driver part -/
 def stepAll (d : DSt) (w : List String) : DSt × String :=
   match w with
   | "x" :: "ua" :: _ => stepUA d w
   | "x" :: _ => stepX d w
+  | "g" :: _ => stepG d w
   | "k" :: _ => stepK d w
   | "n" :: _ => stepN d w
   | _ => step d w
